@@ -14,3 +14,4 @@ register_simp_attr keepsSucc
 register_simp_attr keepsPost
 register_simp_attr keepsKernel2
 register_simp_attr keepsRet
+register_simp_attr keepsStored
